@@ -349,6 +349,10 @@ var boundaryTemplates = []struct {
 	// a for-in over a channel ends when the channel is closed, not before - also when several loops receive from one channel
 	{"jobs = make(chan int64, 4)\nres = make(chan int64, 8)\nclosing = false\nfunc worker() {\nvar n = 0\nfor v in jobs {\nn++\n}\nif closing {\nres <- 0\n} else {\nres <- 1\n}\n}\nfor k = 0; k < 8; k++ {\ngo worker()\n}\nfor i = 0; i < 6000; i++ {\njobs <- i\n}\nclosing = true\nclose(jobs)\nearly = 0\nfor k = 0; k < 8; k++ {\nearly += <-res\n}\nprobe(early)", []string{"(i 0)"}, ""},
 	{"jobs = make(chan int64, 2)\nsum = make(chan int64, 3)\nfunc worker() {\nvar t = 0\nfor v in jobs {\nt += v\n}\nsum <- t\n}\nfor k = 0; k < 3; k++ {\ngo worker()\n}\nfor i = 1; i <= 3000; i++ {\njobs <- i\n}\nclose(jobs)\na = <-sum\nb = <-sum\nc = <-sum\nprobe(a + b + c)", []string{"(i 4501500)"}, ""},
+	// the subject of a switch is a value once evaluated: a case expression that stores into the slot it was read from does not change it
+	{"b = make([]int64, 1)\nb[0] = 1\nfunc bump() {\nb[0] = 2\nreturn 2\n}\nswitch b[0] {\ncase bump():\nprobe(\"two\")\ndefault:\nprobe(\"other\")\n}", []string{"(s 6f74686572)"}, ""},
+	{"c = [1, 2]\nfunc bump() {\nc[0] = 2\nreturn 2\n}\nswitch c[0] {\ncase bump():\nprobe(\"two\")\ncase 1:\nprobe(\"one\")\n}", []string{"(s 6f6e65)"}, ""},
+	{"s = make(struct {\nA int64\n})\ns.A = 1\nfunc bump() {\ns.A = 7\nreturn 7\n}\nswitch s.A {\ncase bump():\nprobe(\"seven\")\ncase 1:\nprobe(\"one\")\n}", []string{"(s 6f6e65)"}, ""},
 	// assigning to a for-in variable does not leak into the next iteration
 	{"t = 0\nfor x in [5, 20, 3] {\nif x > 10 {\nx = 10\n}\nt += x\n}\nprobe(t)", []string{"(i 18)"}, ""},
 	{"r = []\nfor x in [1, 2, 3] {\nx++\nr += x\n}\nprobe(r)", []string{"(l (i 2) (i 3) (i 4))"}, ""},
